@@ -1949,4 +1949,1104 @@ theorem walk_untyped {cfg : Sites} {m : Mask} (h : m.typ = .invalid) (q : List Q
     simp only [walk, query, h, ↓reduceIte, Res.ok_bind, walk_none]
 
 
+
+/-! ## Part 3: every panic has a concrete cause in the input -/
+
+theorem litSpan_suffix : ∀ (l : Bytes), (litSpan l).2 <:+ l
+  | [] => by simp [litSpan]
+  | c :: r => by
+    simp only [litSpan]
+    split
+    · exact List.suffix_refl _
+    · exact (litSpan_suffix r).trans (List.suffix_cons c r)
+
+theorem Res.bind_eq_panic {α β} {x : Res α} {f : α → Res β} {s : Site} :
+    (x >>= f) = .panic s ↔ x = .panic s ∨ ∃ a, x = .ok a ∧ f a = .panic s := by
+  cases x <;> simp
+
+/-- the unread suffix only shrinks -/
+theorem next_suffix {cfg : Sites} {p r : Bytes} {t : Tok} (h : next cfg p = .ok (t, r)) : r <:+ p := by
+  cases p with
+  | nil =>
+    simp only [next, Res.ok.injEq, Prod.mk.injEq] at h
+    rw [← h.2]
+    exact List.suffix_refl _
+  | cons c r0 =>
+    have hc : r0 <:+ c :: r0 := List.suffix_cons c r0
+    rw [next] at h
+    split at h
+    · simp only [Res.ok.injEq, Prod.mk.injEq] at h; rw [← h.2]; exact hc
+    split at h
+    · simp only [Res.ok.injEq, Prod.mk.injEq] at h; rw [← h.2]; exact hc
+    split at h
+    · simp only [Res.ok.injEq, Prod.mk.injEq] at h; rw [← h.2]; exact hc
+    split at h
+    · simp only [Res.ok.injEq, Prod.mk.injEq] at h; rw [← h.2]; exact hc
+    split at h
+    · simp only [Res.ok.injEq, Prod.mk.injEq] at h; rw [← h.2]; exact hc
+    split at h
+    · simp only [Res.ok.injEq, Prod.mk.injEq] at h; rw [← h.2]; exact hc
+    split at h
+    · simp only [Res.ok.injEq, Prod.mk.injEq] at h; rw [← h.2]; exact hc
+    split at h
+    · simp only [Res.ok.injEq, Prod.mk.injEq] at h; rw [← h.2]; exact hc
+    split at h
+    · simp only at h
+      split at h
+      · unfold siteStrSlice siteErrTok at h
+        split at h
+        · simp at h
+        · split at h <;> simp at h
+      · split at h
+        · unfold siteErrTok at h
+          split at h <;> simp at h
+        · simp only [Res.ok.injEq, Prod.mk.injEq] at h; rw [← h.2]; exact List.drop_suffix _ _
+    · have hl := litSpan_suffix (c :: r0)
+      split at h
+      rename_i v rest hls
+      rw [hls] at hl
+      split at h
+      · rw [Res.bind_eq_ok] at h
+        obtain ⟨n, _, h⟩ := h
+        simp only [Res.ok.injEq, Prod.mk.injEq] at h
+        rw [← h.2]; exact hl
+      · simp only [Res.ok.injEq, Prod.mk.injEq] at h
+        rw [← h.2]; exact hl
+
+
+/-- the tokenizer panics at some suffix of the path -/
+def TokCause (cfg : Sites) (path : Bytes) (s : Site) : Prop := ∃ r, r <:+ path ∧ next cfg r = .panic s
+/-- an integer literal beyond int32 is read at some suffix (and `Int32()` still panics) -/
+def Int32Cause (cfg : Sites) (path : Bytes) : Prop :=
+  cfg.int32 = true ∧ ∃ r n r', r <:+ path ∧ next cfg r = .ok (.litInt n, r') ∧ n > 2147483647
+/-- the schema has a negative field id (and `head[f]` is still unguarded) -/
+def HeadCause (cfg : Sites) (sch : Schema) : Prop :=
+  cfg.headNeg = true ∧ ∃ st ∈ sch.structs, ∃ f ∈ st.2, f.id < 0
+
+/-- the three ways `NewFieldMask` can panic -/
+def Cause (cfg : Sites) (sch : Schema) (path : Bytes) (s : Site) : Prop :=
+  TokCause cfg path s ∨ (s = .int32 ∧ Int32Cause cfg path) ∨ (s = .headNeg ∧ HeadCause cfg sch)
+
+theorem Cause.mono {cfg sch s} {p q : Bytes} (hpq : p <:+ q) (h : Cause cfg sch p s) : Cause cfg sch q s := by
+  rcases h with ⟨r, hr, h⟩ | ⟨hs, hc, r, n, r', hr, h⟩ | h
+  · exact Or.inl ⟨r, hr.trans hpq, h⟩
+  · exact Or.inr (Or.inl ⟨hs, hc, r, n, r', hr.trans hpq, h⟩)
+  · exact Or.inr (Or.inr h)
+
+theorem liftO_ne_panic {α} (o : Option α) (s : Site) : liftO o ≠ .panic s := by
+  cases o <;> simp [liftO]
+
+theorem siteHead_panic {cfg : Sites} {f : Int} {s : Site} (h : siteHead cfg f = .panic s) :
+    s = .headNeg ∧ cfg.headNeg = true ∧ f < 0 := by
+  unfold siteHead at h
+  split at h
+  · rename_i hc
+    simp only [Res.panic.injEq] at h
+    simp only [Bool.and_eq_true, decide_eq_true_eq] at hc
+    exact ⟨h.symm, hc.1, hc.2⟩
+  · simp at h
+
+theorem siteInt32_panic {cfg : Sites} {n : Nat} {s : Site} (h : siteInt32 cfg n = .panic s) :
+    s = .int32 ∧ cfg.int32 = true ∧ n > 2147483647 := by
+  unfold siteInt32 at h
+  split at h
+  · rename_i hn
+    split at h
+    · rename_i hc
+      simp only [Res.panic.injEq] at h
+      exact ⟨h.symm, hc, hn⟩
+    · simp at h
+  · simp at h
+
+theorem structOf_mem {sch : Schema} {d : Ty} {fs : List FieldD} (h : sch.structOf d = some fs) :
+    ∃ n, (n, fs) ∈ sch.structs := by
+  cases d with
+  | named n =>
+    simp only [Schema.structOf] at h
+    split at h
+    · simp at h
+    · exact ⟨n, assoc_mem h⟩
+  | list e => simp [Schema.structOf] at h
+  | map k v => simp [Schema.structOf] at h
+
+theorem addViaField_panic {cfg : Sites} {sch : Schema} {rec} {m : Mask} {rest2 : Bytes} {d : Ty} {fs : List FieldD}
+    {f : FieldD} {s : Site} (hso : sch.structOf d = some fs) (hf : f ∈ fs)
+    (hrec : ∀ m d, rec m rest2 d = .panic s → Cause cfg sch rest2 s)
+    (h : addViaField cfg sch rec m rest2 f = .panic s) : Cause cfg sch rest2 s := by
+  unfold addViaField at h
+  rw [Res.bind_eq_panic] at h
+  rcases h with h | ⟨d', _, h⟩
+  · exact absurd h (liftO_ne_panic _ _)
+  rw [Res.bind_eq_panic] at h
+  rcases h with h | ⟨ft, _, h⟩
+  · exact absurd h (liftO_ne_panic _ _)
+  rw [Res.bind_eq_panic] at h
+  rcases h with h | ⟨_, _, h⟩
+  · obtain ⟨h1, h2, h3⟩ := siteHead_panic h
+    obtain ⟨n, hn⟩ := structOf_mem hso
+    exact Or.inr (Or.inr ⟨h1, h2, (n, fs), hn, f, hf, h3⟩)
+  rw [Res.bind_eq_panic] at h
+  rcases h with h | ⟨_, _, h⟩
+  · exact hrec _ _ h
+  · simp at h
+
+theorem addField_panic {cfg : Sites} {sch : Schema} {rec} {m : Mask} {rest : Bytes} {d : Ty} {s : Site}
+    (hrec : ∀ m p d, p <:+ rest → rec m p d = .panic s → Cause cfg sch p s)
+    (h : addField cfg sch rec m rest d = .panic s) : Cause cfg sch rest s := by
+  unfold addField at h
+  split at h
+  · simp at h
+  · rename_i fs hso
+    split at h
+    · simp at h
+    · rw [Res.bind_eq_panic] at h
+      rcases h with h | ⟨⟨tok, rest2⟩, hnext, h⟩
+      · exact Or.inl ⟨rest, List.suffix_refl _, h⟩
+      have hsuf := next_suffix hnext
+      simp only at h
+      split at h
+      · simp at h
+      split at h
+      · simp at h
+      split at h
+      · rw [Res.bind_eq_panic] at h
+        rcases h with h | ⟨id, _, h⟩
+        · obtain ⟨h1, h2, h3⟩ := siteInt32_panic h
+          exact Or.inr (Or.inl ⟨h1, h2, rest, _, rest2, List.suffix_refl _, hnext, h3⟩)
+        split at h
+        · simp at h
+        · rename_i f hfb
+          exact (addViaField_panic hso (List.mem_of_find?_eq_some hfb) (fun m d => hrec m rest2 d hsuf) h).mono hsuf
+      · split at h
+        · simp at h
+        · rename_i f hfb
+          exact (addViaField_panic hso (List.mem_of_find?_eq_some hfb) (fun m d => hrec m rest2 d hsuf) h).mono hsuf
+      · unfold addFieldStar at h
+        split at h
+        · simp at h
+        · rw [Res.bind_eq_panic] at h
+          rcases h with h | ⟨ft, _, h⟩
+          · exact absurd h (liftO_ne_panic _ _)
+          rw [Res.bind_eq_panic] at h
+          rcases h with h | ⟨_, _, h⟩
+          · exact (hrec _ _ _ hsuf h).mono hsuf
+          · simp at h
+      · simp at h
+
+
+theorem scanIndex_panic {cfg : Sites} {s : Site} : ∀ (fuel : Nat) (rest : Bytes) (all star empty : Bool) (ids : List Nat),
+    (scanIndex cfg fuel rest all star empty ids = .panic s → TokCause cfg rest s) ∧
+    (∀ sc, scanIndex cfg fuel rest all star empty ids = .ok sc → sc.rest <:+ rest) := by
+  intro fuel
+  induction fuel with
+  | zero => intro rest all star empty ids; simp [scanIndex]
+  | succ f ih =>
+    intro rest all star empty ids
+    rw [scanIndex]
+    split
+    · exact ⟨by simp, by intro sc h; simp only [Res.ok.injEq] at h; subst h; exact List.suffix_refl _⟩
+    · constructor
+      · intro h
+        rw [Res.bind_eq_panic] at h
+        rcases h with h | ⟨⟨tok, rest'⟩, hn, h⟩
+        · exact ⟨rest, List.suffix_refl _, h⟩
+        have hsuf := next_suffix hn
+        have lift : ∀ {a b c d}, scanIndex cfg f rest' a b c d = .panic s → TokCause cfg rest s := by
+          intro a b c d h
+          obtain ⟨r, hr, h⟩ := (ih rest' a b c d).1 h
+          exact ⟨r, hr.trans hsuf, h⟩
+        simp only at h
+        split at h
+        · split at h <;> simp at h
+        · exact lift h
+        · exact lift h
+        · split at h
+          · simp at h
+          · exact lift h
+        · simp at h
+        · split at h <;> simp at h
+      · intro sc h
+        rw [Res.bind_eq_ok] at h
+        obtain ⟨⟨tok, rest'⟩, hn, h⟩ := h
+        have hsuf := next_suffix hn
+        simp only at h
+        split at h
+        · split at h
+          · simp at h
+          · simp only [Res.ok.injEq] at h; subst h; exact hsuf
+        · exact ((ih _ _ _ _ _).2 sc h).trans hsuf
+        · exact ((ih _ _ _ _ _).2 sc h).trans hsuf
+        · split at h
+          · simp at h
+          · exact ((ih _ _ _ _ _).2 sc h).trans hsuf
+        · simp at h
+        · split at h <;> simp at h
+
+theorem scanKeys_panic {cfg : Sites} {isInt isStr : Bool} {s : Site} : ∀ (fuel : Nat) (rest : Bytes) (all star empty : Bool)
+    (ids : List Nat) (strs : List Bytes),
+    (scanKeys cfg isInt isStr fuel rest all star empty ids strs = .panic s → TokCause cfg rest s) ∧
+    (∀ sc, scanKeys cfg isInt isStr fuel rest all star empty ids strs = .ok sc → sc.rest <:+ rest) := by
+  intro fuel
+  induction fuel with
+  | zero => intro rest all star empty ids strs; simp [scanKeys]
+  | succ f ih =>
+    intro rest all star empty ids strs
+    rw [scanKeys]
+    split
+    · exact ⟨by simp, by intro sc h; simp only [Res.ok.injEq] at h; subst h; exact List.suffix_refl _⟩
+    · constructor
+      · intro h
+        rw [Res.bind_eq_panic] at h
+        rcases h with h | ⟨⟨tok, rest'⟩, hn, h⟩
+        · exact ⟨rest, List.suffix_refl _, h⟩
+        have hsuf := next_suffix hn
+        have lift : ∀ {a b c d e}, scanKeys cfg isInt isStr f rest' a b c d e = .panic s → TokCause cfg rest s := by
+          intro a b c d e h
+          obtain ⟨r, hr, h⟩ := (ih rest' a b c d e).1 h
+          exact ⟨r, hr.trans hsuf, h⟩
+        simp only at h
+        split at h
+        · split at h <;> simp at h
+        · exact lift h
+        · exact lift h
+        · simp at h
+        · split at h
+          · simp at h
+          · split at h
+            · simp at h
+            · exact lift h
+        · split at h
+          · simp at h
+          · split at h
+            · simp at h
+            · exact lift h
+        · split at h <;> simp at h
+      · intro sc h
+        rw [Res.bind_eq_ok] at h
+        obtain ⟨⟨tok, rest'⟩, hn, h⟩ := h
+        have hsuf := next_suffix hn
+        simp only at h
+        split at h
+        · split at h
+          · simp at h
+          · simp only [Res.ok.injEq] at h; subst h; exact hsuf
+        · exact ((ih _ _ _ _ _ _).2 sc h).trans hsuf
+        · exact ((ih _ _ _ _ _ _).2 sc h).trans hsuf
+        · simp at h
+        · split at h
+          · simp at h
+          · split at h
+            · simp at h
+            · exact ((ih _ _ _ _ _ _).2 sc h).trans hsuf
+        · split at h
+          · simp at h
+          · split at h
+            · simp at h
+            · exact ((ih _ _ _ _ _ _).2 sc h).trans hsuf
+        · split at h <;> simp at h
+
+theorem forKeys_panic {add : Mask → Res Mask} {ft : Ft} {getK setK} {s : Site} :
+    ∀ (ks : List Key) (cur : Mask), forKeys add ft ks cur getK setK = .panic s → ∃ c, add c = .panic s
+  | [], cur, h => by simp [forKeys] at h
+  | k :: ks, cur, h => by
+    simp only [forKeys] at h
+    rw [Res.bind_eq_panic] at h
+    rcases h with h | ⟨c', _, h⟩
+    · exact ⟨_, h⟩
+    · exact forKeys_panic ks _ h
+
+theorem addIndex_panic {cfg : Sites} {sch : Schema} {fuel : Nat} {rec} {m : Mask} {rest : Bytes} {d : Ty} {s : Site}
+    (hrec : ∀ m p d, p <:+ rest → rec m p d = .panic s → Cause cfg sch p s)
+    (h : addIndex cfg sch fuel rec m rest d = .panic s) : Cause cfg sch rest s := by
+  unfold addIndex at h
+  split at h
+  · split at h
+    · simp at h
+    rw [Res.bind_eq_panic] at h
+    rcases h with h | ⟨et, _, h⟩
+    · exact absurd h (liftO_ne_panic _ _)
+    rw [Res.bind_eq_panic] at h
+    rcases h with h | ⟨nextFt, _, h⟩
+    · exact absurd h (liftO_ne_panic _ _)
+    split at h
+    · simp at h
+    rw [Res.bind_eq_panic] at h
+    rcases h with h | ⟨sc, hsc, h⟩
+    · exact Or.inl ((scanIndex_panic _ _ _ _ _ _).1 h)
+    have hsuf := (scanIndex_panic (s := s) _ _ _ _ _ _).2 sc hsc
+    simp only at h
+    split at h
+    · rw [Res.bind_eq_panic] at h
+      rcases h with h | ⟨_, _, h⟩
+      · exact (hrec _ _ _ hsuf h).mono hsuf
+      · simp at h
+    · obtain ⟨c, h⟩ := forKeys_panic _ _ h
+      rw [Res.bind_eq_panic] at h
+      rcases h with h | ⟨_, _, h⟩
+      · exact absurd h (liftO_ne_panic _ _)
+      · exact (hrec _ _ _ hsuf h).mono hsuf
+  · simp at h
+
+theorem addMap_panic {cfg : Sites} {sch : Schema} {fuel : Nat} {rec} {m : Mask} {rest : Bytes} {d : Ty} {s : Site}
+    (hrec : ∀ m p d, p <:+ rest → rec m p d = .panic s → Cause cfg sch p s)
+    (h : addMap cfg sch fuel rec m rest d = .panic s) : Cause cfg sch rest s := by
+  unfold addMap at h
+  split at h
+  · split at h
+    · simp at h
+    rw [Res.bind_eq_panic] at h
+    rcases h with h | ⟨et, _, h⟩
+    · exact absurd h (liftO_ne_panic _ _)
+    rw [Res.bind_eq_panic] at h
+    rcases h with h | ⟨nextFt, _, h⟩
+    · exact absurd h (liftO_ne_panic _ _)
+    split at h
+    · simp at h
+    simp only at h
+    rw [Res.bind_eq_panic] at h
+    rcases h with h | ⟨sc, hsc, h⟩
+    · exact Or.inl ((scanKeys_panic _ _ _ _ _ _ _).1 h)
+    have hsuf := (scanKeys_panic (s := s) _ _ _ _ _ _ _).2 sc hsc
+    have hadd : ∀ c, (do let et' ← liftO (sch.unwrap et); rec c sc.rest et') = .panic s → Cause cfg sch rest s := by
+      intro c h
+      rw [Res.bind_eq_panic] at h
+      rcases h with h | ⟨_, _, h⟩
+      · exact absurd h (liftO_ne_panic _ _)
+      · exact (hrec _ _ _ hsuf h).mono hsuf
+    split at h
+    · rw [Res.bind_eq_panic] at h
+      rcases h with h | ⟨_, _, h⟩
+      · exact (hrec _ _ _ hsuf h).mono hsuf
+      · simp at h
+    · split at h
+      · obtain ⟨c, h⟩ := forKeys_panic _ _ h
+        exact hadd c h
+      · split at h
+        · obtain ⟨c, h⟩ := forKeys_panic _ _ h
+          exact hadd c h
+        · simp at h
+  · simp at h
+
+/-- **every panic of the token loop has a cause in its input** -/
+theorem addLoop_panic {cfg : Sites} {sch : Schema} {s : Site} :
+    ∀ (fuel : Nat) (m : Mask) (path : Bytes) (d : Ty), addLoop cfg sch fuel m path d = .panic s → Cause cfg sch path s := by
+  intro fuel
+  induction fuel with
+  | zero => intro m path d h; simp [addLoop] at h
+  | succ f ih =>
+    intro m path d h
+    rw [addLoop] at h
+    split at h
+    · simp at h
+    rw [Res.bind_eq_panic] at h
+    rcases h with h | ⟨⟨stok, rest⟩, hnext, h⟩
+    · exact Or.inl ⟨path, List.suffix_refl _, h⟩
+    have hsuf := next_suffix hnext
+    simp only at h
+    split at h
+    · simp at h
+    · rw [Res.bind_eq_panic] at h
+      rcases h with h | ⟨_, _, h⟩
+      · exact absurd h (liftO_ne_panic _ _)
+      · exact (ih _ _ _ h).mono hsuf
+    · exact (addField_panic (fun m p d _ h => ih m p d h) h).mono hsuf
+    · exact (addIndex_panic (fun m p d _ h => ih m p d h) h).mono hsuf
+    · exact (addMap_panic (fun m p d _ h => ih m p d h) h).mono hsuf
+    · simp at h
+
+theorem newMask_panic {cfg : Sites} {sch : Schema} {desc : Ty} {black : Bool} {s : Site} :
+    ∀ (paths : List Bytes) (m : Mask), newMask cfg sch desc black paths m = .panic s → ∃ p ∈ paths, Cause cfg sch p s
+  | [], m, h => by simp [newMask] at h
+  | p :: ps, m, h => by
+    simp only [newMask] at h
+    rw [Res.bind_eq_panic] at h
+    rcases h with h | ⟨m', _, h⟩
+    · unfold addPath at h
+      rw [Res.bind_eq_panic] at h
+      rcases h with h | ⟨d, _, h⟩
+      · exact absurd h (liftO_ne_panic _ _)
+      · exact ⟨p, by simp, addLoop_panic _ _ _ _ h⟩
+    · obtain ⟨q, hq, hc⟩ := newMask_panic ps m' h
+      exact ⟨q, by simp [hq], hc⟩
+
+
+/-- which switch of `Sites` a panic site hangs on (`marshalNilFd` has none: it is unreachable, see docs) -/
+def Sites.enabled (cfg : Sites) : Site → Bool
+  | .headNeg => cfg.headNeg | .atoi => cfg.atoi | .int32 => cfg.int32 | .errTok => cfg.errTok
+  | .strSlice => cfg.strSlice | .getPathStar => cfg.getPathStar | .fieldNilFd => cfg.fieldNilFd
+  | .foreachNilFd => cfg.foreachNilFd | .foreachInvalid => cfg.foreachInvalid | .marshalNilFd => true
+
+theorem siteErrTok_panic {cfg : Sites} {α} {s : Site} (h : (siteErrTok cfg : Res α) = .panic s) :
+    s = .errTok ∧ cfg.errTok = true := by
+  unfold siteErrTok at h
+  split at h
+  · rename_i hc; simp only [Res.panic.injEq] at h; exact ⟨h.symm, hc⟩
+  · simp at h
+
+theorem siteStrSlice_panic {cfg : Sites} {α} {s : Site} (h : (siteStrSlice cfg : Res α) = .panic s) :
+    cfg.enabled s = true := by
+  unfold siteStrSlice at h
+  split at h
+  · rename_i hc; simp only [Res.panic.injEq] at h; subst h; exact hc
+  · obtain ⟨rfl, hc⟩ := siteErrTok_panic h; exact hc
+
+theorem next_panic {cfg : Sites} {r : Bytes} {s : Site} (h : next cfg r = .panic s) : cfg.enabled s = true := by
+  cases r with
+  | nil => simp [next] at h
+  | cons c r0 =>
+    rw [next] at h
+    split at h
+    · simp at h
+    split at h
+    · simp at h
+    split at h
+    · simp at h
+    split at h
+    · simp at h
+    split at h
+    · simp at h
+    split at h
+    · simp at h
+    split at h
+    · simp at h
+    split at h
+    · simp at h
+    split at h
+    · simp only at h
+      split at h
+      · exact siteStrSlice_panic h
+      · split at h
+        · obtain ⟨rfl, hc⟩ := siteErrTok_panic h; exact hc
+        · simp at h
+    · split at h
+      split at h
+      · rw [Res.bind_eq_panic] at h
+        rcases h with h | ⟨_, _, h⟩
+        · unfold siteAtoi at h
+          split at h
+          · split at h
+            · rename_i hc; simp only [Res.panic.injEq] at h; subst h; exact hc
+            · simp at h
+          · simp at h
+        · simp at h
+      · simp at h
+
+theorem Cause.enabled {cfg sch p s} (h : Cause cfg sch p s) : cfg.enabled s = true := by
+  rcases h with ⟨r, _, h⟩ | ⟨rfl, hc, _⟩ | ⟨rfl, hc, _⟩
+  · exact next_panic h
+  · exact hc
+  · exact hc
+
+/-- queries: a panic needs a negative field id or a `Field()` call on a node without field map -/
+theorem query_panic {cfg : Sites} {cur : MaskOpt} {q : QStep} {s : Site} (h : query cfg cur q = .panic s) :
+    ∃ id, q = .field id ∧ ((s = .headNeg ∧ cfg.headNeg = true ∧ id < 0) ∨
+      (s = .fieldNilFd ∧ cfg.fieldNilFd = true ∧ ∃ m, cur = .some m ∧ m.fdA = false)) := by
+  unfold query at h
+  split at h
+  · simp at h
+  · rename_i m
+    split at h
+    · simp at h
+    split at h
+    · simp at h
+    split at h
+    · rename_i id
+      rw [Res.bind_eq_panic] at h
+      rcases h with h | ⟨_, _, h⟩
+      · unfold fdGet at h
+        rw [Res.bind_eq_panic] at h
+        rcases h with h | ⟨_, _, h⟩
+        · obtain ⟨h1, h2, h3⟩ := siteHead_panic h
+          exact ⟨id, rfl, Or.inl ⟨h1, h2, h3⟩⟩
+        · split at h
+          · rename_i hfa
+            split at h
+            · rename_i hc
+              simp only [Res.panic.injEq] at h
+              exact ⟨id, rfl, Or.inr ⟨h.symm, hc, m, rfl, by simpa using hfa⟩⟩
+            · simp at h
+          · simp at h
+      · simp at h
+    · simp at h
+    · simp at h
+
+theorem walk_panic {cfg : Sites} {s : Site} : ∀ (q : List QStep) (cur : MaskOpt), walk cfg cur q = .panic s →
+    (s = .headNeg ∧ cfg.headNeg = true ∧ ∃ id, QStep.field id ∈ q ∧ id < 0) ∨ (s = .fieldNilFd ∧ cfg.fieldNilFd = true)
+  | [], cur, h => by simp [walk] at h
+  | st :: qs, cur, h => by
+    simp only [walk] at h
+    rw [Res.bind_eq_panic] at h
+    rcases h with h | ⟨⟨nxt, ok⟩, _, h⟩
+    · obtain ⟨id, hq, h'⟩ := query_panic h
+      rcases h' with ⟨h1, h2, h3⟩ | ⟨h1, h2, _⟩
+      · exact Or.inl ⟨h1, h2, id, by simp [hq], h3⟩
+      · exact Or.inr ⟨h1, h2⟩
+    · simp only at h
+      split at h
+      · rcases walk_panic qs nxt h with ⟨h1, h2, id, h3, h4⟩ | h
+        · exact Or.inl ⟨h1, h2, id, by simp [h3], h4⟩
+        · exact Or.inr h
+      · simp at h
+
+theorem forEachChild_panic {cfg : Sites} {cur : MaskOpt} {s : Site} (h : forEachChild cfg cur = .panic s) :
+    cfg.enabled s = true ∧ (s = .foreachNilFd ∨ s = .foreachInvalid) := by
+  unfold forEachChild at h
+  split at h
+  · simp at h
+  · split at h
+    · simp at h
+    · split at h
+      · split at h
+        · rename_i hc; simp only [Res.panic.injEq] at h; subst h; exact ⟨hc, Or.inl rfl⟩
+        · simp at h
+      · simp at h
+    · simp at h
+    · simp at h
+    · simp at h
+    · split at h
+      · rename_i hc; simp only [Res.panic.injEq] at h; subst h; exact ⟨hc, Or.inr rfl⟩
+      · simp at h
+
+
+mutual
+/-- some child path of the document decodes to a negative int32 -/
+def JIn.negId : JIn → Bool
+  | .mk p _ _ ks => (match p.i32 with | some id => decide (id < 0) | none => false) || JIns.negId ks
+def JIns.negId : JIns → Bool
+  | .nil => false
+  | .cons j r => j.negId || JIns.negId r
+end
+
+mutual
+theorem transferFrom_panic {cfg : Sites} {s : Site} : ∀ (j : JIn) (m : Mask), transferFrom cfg m j = .panic s →
+    s = .headNeg ∧ cfg.headNeg = true ∧ j.negId = true
+  | .mk p typ black kids, m, h => by
+    have key : ∀ k m', transferKids cfg k m' kids = .panic s →
+        s = .headNeg ∧ cfg.headNeg = true ∧ (JIn.mk p typ black kids).negId = true := by
+      intro k m' hh
+      obtain ⟨h1, h2, h3⟩ := transferKids_panic kids k m' hh
+      exact ⟨h1, h2, by simp [JIn.negId, h3]⟩
+    unfold transferFrom at h
+    split at h
+    · simp at h
+    simp only at h
+    split at h
+    · simp at h
+    · split at h
+      · exact key _ _ h
+      · exact key _ _ h
+      · exact key _ _ h
+      · exact key _ _ h
+      · exact key _ _ h
+      · simp at h
+theorem transferKids_panic {cfg : Sites} {s : Site} : ∀ (js : JIns) (kind : Nat) (m : Mask), transferKids cfg kind m js = .panic s →
+    s = .headNeg ∧ cfg.headNeg = true ∧ js.negId = true
+  | .nil, kind, m, h => by simp [transferKids] at h
+  | .cons n r, kind, m, h => by
+    have kn : ∀ m', transferFrom cfg m' n = .panic s → s = .headNeg ∧ cfg.headNeg = true ∧ (JIns.cons n r).negId = true := by
+      intro m' hh
+      obtain ⟨h1, h2, h3⟩ := transferFrom_panic n m' hh
+      exact ⟨h1, h2, by simp [JIns.negId, h3]⟩
+    have kr : ∀ k m', transferKids cfg k m' r = .panic s → s = .headNeg ∧ cfg.headNeg = true ∧ (JIns.cons n r).negId = true := by
+      intro k m' hh
+      obtain ⟨h1, h2, h3⟩ := transferKids_panic r k m' hh
+      exact ⟨h1, h2, by simp [JIns.negId, h3]⟩
+    unfold transferKids at h
+    split at h
+    · rw [Res.bind_eq_panic] at h
+      rcases h with h | ⟨_, _, h⟩
+      · exact kn _ h
+      · simp at h
+    · split at h
+      · split at h
+        · simp at h
+        · rename_i id hid
+          rw [Res.bind_eq_panic] at h
+          rcases h with h | ⟨_, _, h⟩
+          · obtain ⟨h1, h2, h3⟩ := siteHead_panic h
+            refine ⟨h1, h2, ?_⟩
+            cases n with
+            | mk p t b ks =>
+              simp only [JIn.path] at hid
+              simp [JIns.negId, JIn.negId, hid, h3]
+          · rw [Res.bind_eq_panic] at h
+            rcases h with h | ⟨_, _, h⟩
+            · exact kn _ h
+            · exact kr _ _ h
+      · split at h
+        · simp at h
+        · rw [Res.bind_eq_panic] at h
+          rcases h with h | ⟨_, _, h⟩
+          · exact kn _ h
+          · exact kr _ _ h
+      · split at h
+        · simp at h
+        · rw [Res.bind_eq_panic] at h
+          rcases h with h | ⟨_, _, h⟩
+          · exact kn _ h
+          · exact kr _ _ h
+      · simp at h
+end
+
+theorem unmarshal_panic {cfg : Sites} {s : Site} {doc : Option JIn} (h : unmarshal cfg doc = .panic s) :
+    s = .headNeg ∧ cfg.headNeg = true ∧ ∃ j, doc = some j ∧ j.negId = true := by
+  unfold unmarshal at h
+  split at h
+  · simp at h
+  · rename_i j
+    split at h
+    · simp at h
+    · obtain ⟨h1, h2, h3⟩ := transferFrom_panic j _ h
+      exact ⟨h1, h2, j, rfl, h3⟩
+
+
+theorem query_panic_enabled {cfg : Sites} {cur : MaskOpt} {q : QStep} {s : Site} (h : query cfg cur q = .panic s) :
+    cfg.enabled s = true := by
+  obtain ⟨id, _, h⟩ := query_panic h
+  rcases h with ⟨rfl, h, _⟩ | ⟨rfl, h, _⟩ <;> exact h
+
+theorem gpIndex_panic {cfg : Sites} {cur : Mask} {s : Site} : ∀ (f : Nat) (rest : Bytes) (nxt : MaskOpt),
+    gpIndex cfg cur f rest nxt = .panic s → cfg.enabled s = true := by
+  intro f
+  induction f with
+  | zero => intro rest nxt h; simp [gpIndex] at h
+  | succ f ih =>
+    intro rest nxt h
+    rw [gpIndex] at h
+    split at h
+    · simp at h
+    split at h
+    · simp at h
+    · rename_i s' hn
+      simp only [Res.panic.injEq] at h
+      subst h
+      exact next_panic hn
+    · simp at h
+    · split at h
+      · simp at h
+      split at h
+      · simp at h
+      split at h
+      · exact ih _ _ h
+      split at h
+      · rw [Res.bind_eq_panic] at h
+        rcases h with h | ⟨⟨fm, ex⟩, _, h⟩
+        · exact query_panic_enabled h
+        · simp only at h
+          split at h
+          · simp at h
+          · exact ih _ _ h
+      · simp at h
+
+theorem gpKeys_panic {cfg : Sites} {cur : Mask} {s : Site} : ∀ (f : Nat) (rest : Bytes) (nxt : MaskOpt),
+    gpKeys cfg cur f rest nxt = .panic s → cfg.enabled s = true := by
+  intro f
+  induction f with
+  | zero => intro rest nxt h; simp [gpKeys] at h
+  | succ f ih =>
+    intro rest nxt h
+    rw [gpKeys] at h
+    split at h
+    · simp at h
+    split at h
+    · simp at h
+    · rename_i s' hn
+      simp only [Res.panic.injEq] at h
+      subst h
+      exact next_panic hn
+    · simp at h
+    · split at h
+      · simp at h
+      split at h
+      · simp at h
+      split at h
+      · exact ih _ _ h
+      split at h
+      · split at h
+        · simp at h
+        rw [Res.bind_eq_panic] at h
+        rcases h with h | ⟨⟨fm, ex⟩, _, h⟩
+        · exact query_panic_enabled h
+        · simp only at h
+          split at h
+          · simp at h
+          · exact ih _ _ h
+      · split at h
+        · simp at h
+        rw [Res.bind_eq_panic] at h
+        rcases h with h | ⟨⟨fm, ex⟩, _, h⟩
+        · exact query_panic_enabled h
+        · simp only at h
+          split at h
+          · simp at h
+          · exact ih _ _ h
+      · simp at h
+
+
+theorem gpLoop_panic {cfg : Sites} {sch : Schema} {s : Site} : ∀ (f : Nat) (last cur : MaskOpt) (path : Bytes) (desc : Ty),
+    gpLoop cfg sch f last cur path desc = .panic s → cfg.enabled s = true := by
+  intro f
+  induction f with
+  | zero => intro last cur path desc h; simp [gpLoop] at h
+  | succ f ih =>
+    intro last cur path desc h
+    unfold gpLoop at h
+    split at h
+    · simp at h
+    cases cur with
+    | none => simp at h
+    | some c =>
+    have hcur : ∃ cur, cur = MaskOpt.some c := ⟨_, rfl⟩
+    obtain ⟨cur, hcur⟩ := hcur
+    rw [← hcur] at h
+    simp only [hcur] at h
+    rw [← hcur] at h
+    split at h
+    · simp at h
+    · rename_i s' hn
+      simp only [Res.panic.injEq] at h; subst h; exact next_panic hn
+    · simp at h
+    split at h
+    · simp at h
+    · exact ih _ _ _ _ h
+    · split at h
+      · simp at h
+      split at h
+      · simp at h
+      split at h
+      · simp at h
+      · rename_i s' hn
+        simp only [Res.panic.injEq] at h; subst h; exact next_panic hn
+      · simp at h
+      · have via : ∀ (fd : FieldD) (rest2 : Bytes), (do
+              let __x ← query cfg cur (QStep.field (int16wrap fd.id))
+              match __x with
+                | (fm, ex) => if (!ex) = true then Res.ok (MaskOpt.none, false) else gpLoop cfg sch f cur fm rest2 fd.ty) = .panic s →
+            cfg.enabled s = true := by
+          intro fd rest2 h
+          rw [Res.bind_eq_panic] at h
+          rcases h with h | ⟨⟨fm, ex⟩, _, h⟩
+          · exact query_panic_enabled h
+          · simp only at h
+            split at h
+            · simp at h
+            · exact ih _ _ _ _ h
+        split at h
+        · split at h
+          · simp at h
+          · rename_i s' hn
+            simp only [Res.panic.injEq] at h; subst h
+            obtain ⟨rfl, hc, _⟩ := siteInt32_panic hn
+            exact hc
+          · simp at h
+          · split at h
+            · simp at h
+            · exact via _ _ h
+        · split at h
+          · simp at h
+          · exact via _ _ h
+        · split at h
+          · simp at h
+          split at h
+          · rename_i hc
+            simp only [Res.panic.injEq] at h; subst h; exact hc
+          · exact ih _ _ _ _ h
+        · simp at h
+    · split at h
+      · split at h
+        · simp at h
+        rw [Res.bind_eq_panic] at h
+        rcases h with h | ⟨r, _, h⟩
+        · exact gpIndex_panic _ _ _ h
+        · split at h
+          · simp at h
+          · exact ih _ _ _ _ h
+      · simp at h
+    · split at h
+      · split at h
+        · simp at h
+        rw [Res.bind_eq_panic] at h
+        rcases h with h | ⟨r, _, h⟩
+        · exact gpKeys_panic _ _ _ h
+        · split at h
+          · simp at h
+          · exact ih _ _ _ _ h
+      · simp at h
+    · simp at h
+
+theorem getPath_panic {cfg : Sites} {sch : Schema} {m : MaskOpt} {desc : Ty} {path : Bytes} {s : Site}
+    (h : getPath cfg sch m desc path = .panic s) : cfg.enabled s = true :=
+  gpLoop_panic _ _ _ _ _ h
+
+
+
+/-! ## Part 4: GetPath terminates when every token consumes input -/
+
+/-- every token read at a non-empty suffix of the path consumes at least one byte
+(false exactly when a suffix starts with a backslash: `lit()` stops there without advancing) -/
+def Progress (cfg : Sites) (p0 : Bytes) : Prop :=
+  ∀ r, r <:+ p0 → ∀ t r', next cfg r = .ok (t, r') → r ≠ [] → r'.length < r.length
+
+theorem query_ne_crash {cfg : Sites} {cur : MaskOpt} {q : QStep} : query cfg cur q ≠ .crash := by
+  unfold query
+  split
+  · simp
+  · split
+    · simp
+    split
+    · simp
+    split
+    · unfold fdGet siteHead
+      split <;> simp
+      split
+      · split <;> simp
+      · simp
+    · simp
+    · simp
+
+theorem Res.bind_eq_crash {α β} {x : Res α} {f : α → Res β} :
+    (x >>= f) = .crash ↔ x = .crash ∨ ∃ a, x = .ok a ∧ f a = .crash := by
+  cases x <;> simp
+
+theorem next_ne_crash {cfg : Sites} {r : Bytes} : next cfg r ≠ .crash := by
+  cases r with
+  | nil => simp [next]
+  | cons c r0 =>
+    rw [next]
+    repeat' split
+    all_goals try simp
+    all_goals try (unfold siteStrSlice siteErrTok; repeat' split)
+    all_goals try simp
+    all_goals try (unfold siteErrTok; split <;> simp)
+    all_goals
+      intro h
+      rw [Res.bind_eq_crash] at h
+      rcases h with h | ⟨_, _, h⟩
+      · unfold siteAtoi at h
+        repeat' split at h
+        all_goals simp at h
+      · simp at h
+
+theorem gpIndex_total {cfg : Sites} {cur : Mask} {p0 : Bytes} (hp : Progress cfg p0) : ∀ (f : Nat) (rest : Bytes) (nxt : MaskOpt),
+    rest <:+ p0 → rest.length < f →
+    gpIndex cfg cur f rest nxt ≠ .crash ∧
+    ∀ n r', gpIndex cfg cur f rest nxt = .ok (some (n, r')) → r' <:+ rest := by
+  intro f
+  induction f with
+  | zero => intro rest nxt _ h; omega
+  | succ f ih =>
+    intro rest nxt hsuf hlen
+    rw [gpIndex]
+    split
+    · exact ⟨by simp, by intro n r' h; simp only [Res.ok.injEq, Option.some.injEq, Prod.mk.injEq] at h; rw [← h.2]; exact List.suffix_refl _⟩
+    rename_i hne
+    have hne' : rest ≠ [] := by intro h; simp [h] at hne
+    split
+    · exact ⟨by simp, by simp⟩
+    · exact ⟨by simp, by simp⟩
+    · rename_i hn; exact absurd hn next_ne_crash
+    · rename_i tok rest' hn
+      have hs := next_suffix hn
+      have hl := hp rest hsuf tok rest' hn hne'
+      have ih' := fun nxt => ih rest' nxt (hs.trans hsuf) (by omega)
+      split
+      · exact ⟨by simp, by simp⟩
+      split
+      · exact ⟨by simp, by intro n r' h; simp only [Res.ok.injEq, Option.some.injEq, Prod.mk.injEq] at h; rw [← h.2]; exact hs⟩
+      split
+      · exact ⟨(ih' nxt).1, fun n r' h => ((ih' nxt).2 n r' h).trans hs⟩
+      split
+      · constructor
+        · intro h
+          rw [Res.bind_eq_crash] at h
+          rcases h with h | ⟨⟨fm, ex⟩, _, h⟩
+          · exact query_ne_crash h
+          · simp only at h
+            split at h
+            · simp at h
+            · exact (ih' fm).1 h
+        · intro n r' h
+          rw [Res.bind_eq_ok] at h
+          obtain ⟨⟨fm, ex⟩, _, h⟩ := h
+          simp only at h
+          split at h
+          · simp at h
+          · exact ((ih' fm).2 n r' h).trans hs
+      · exact ⟨by simp, by simp⟩
+
+
+theorem gpKeys_total {cfg : Sites} {cur : Mask} {p0 : Bytes} (hp : Progress cfg p0) : ∀ (f : Nat) (rest : Bytes) (nxt : MaskOpt),
+    rest <:+ p0 → rest.length < f →
+    gpKeys cfg cur f rest nxt ≠ .crash ∧
+    ∀ n r', gpKeys cfg cur f rest nxt = .ok (some (n, r')) → r' <:+ rest := by
+  intro f
+  induction f with
+  | zero => intro rest nxt _ h; omega
+  | succ f ih =>
+    intro rest nxt hsuf hlen
+    rw [gpKeys]
+    split
+    · exact ⟨by simp, by intro n r' h; simp only [Res.ok.injEq, Option.some.injEq, Prod.mk.injEq] at h; rw [← h.2]; exact List.suffix_refl _⟩
+    rename_i hne
+    have hne' : rest ≠ [] := by intro h; simp [h] at hne
+    split
+    · exact ⟨by simp, by simp⟩
+    · exact ⟨by simp, by simp⟩
+    · rename_i hn; exact absurd hn next_ne_crash
+    · rename_i tok rest' hn
+      have hs := next_suffix hn
+      have hl := hp rest hsuf tok rest' hn hne'
+      have ih' := fun nxt => ih rest' nxt (hs.trans hsuf) (by omega)
+      have step : ∀ q : QStep,
+          (do let __x ← query cfg (.some cur) q
+              match __x with
+                | (fm, ex) => if (!ex) = true then Res.ok none else gpKeys cfg cur f rest' fm) ≠ .crash ∧
+          ∀ n r', (do let __x ← query cfg (.some cur) q
+                      match __x with
+                        | (fm, ex) => if (!ex) = true then Res.ok none else gpKeys cfg cur f rest' fm) = .ok (some (n, r')) →
+            r' <:+ rest := by
+        intro q
+        constructor
+        · intro h
+          rw [Res.bind_eq_crash] at h
+          rcases h with h | ⟨⟨fm, ex⟩, _, h⟩
+          · exact query_ne_crash h
+          · simp only at h
+            split at h
+            · simp at h
+            · exact (ih' fm).1 h
+        · intro n r' h
+          rw [Res.bind_eq_ok] at h
+          obtain ⟨⟨fm, ex⟩, _, h⟩ := h
+          simp only at h
+          split at h
+          · simp at h
+          · exact ((ih' fm).2 n r' h).trans hs
+      split
+      · exact ⟨by simp, by simp⟩
+      split
+      · exact ⟨by simp, by intro n r' h; simp only [Res.ok.injEq, Option.some.injEq, Prod.mk.injEq] at h; rw [← h.2]; exact hs⟩
+      split
+      · exact ⟨(ih' nxt).1, fun n r' h => ((ih' nxt).2 n r' h).trans hs⟩
+      split
+      · split
+        · exact ⟨by simp, by simp⟩
+        · exact step _
+      · split
+        · exact ⟨by simp, by simp⟩
+        · exact step _
+      · exact ⟨by simp, by simp⟩
+
+theorem gpLoop_total {cfg : Sites} {sch : Schema} {p0 : Bytes} (hp : Progress cfg p0) :
+    ∀ (f : Nat) (last cur : MaskOpt) (path : Bytes) (desc : Ty),
+      path <:+ p0 → path.length < f → gpLoop cfg sch f last cur path desc ≠ .crash := by
+  intro f
+  induction f with
+  | zero => intro last cur path desc _ h; omega
+  | succ f ih =>
+    intro last cur path desc hsuf hlen
+    unfold gpLoop
+    split
+    · simp
+    rename_i hne
+    have hne' : path ≠ [] := by intro h; simp [h] at hne
+    cases cur with
+    | none => simp
+    | some c =>
+    have hcur : ∃ cur, cur = MaskOpt.some c := ⟨_, rfl⟩
+    obtain ⟨cur, hcur⟩ := hcur
+    rw [← hcur]
+    simp only [hcur]
+    rw [← hcur]
+    split
+    · simp
+    · simp
+    · rename_i hn; exact absurd hn next_ne_crash
+    rename_i stok rest hn
+    have hs := next_suffix hn
+    have hl := hp path hsuf stok rest hn hne'
+    have hs0 := hs.trans hsuf
+    split
+    · simp
+    · exact ih _ _ _ _ hs0 (by omega)
+    · split
+      · simp
+      split
+      · simp
+      split
+      · simp
+      · simp
+      · rename_i hn2; exact absurd hn2 next_ne_crash
+      · rename_i tok rest2 hn2
+        have hs2 := next_suffix hn2
+        have hs20 := hs2.trans hs0
+        have hl2 : rest2.length ≤ rest.length := hs2.length_le
+        have via : ∀ (fd : FieldD), (do
+              let __x ← query cfg cur (QStep.field (int16wrap fd.id))
+              match __x with
+                | (fm, ex) => if (!ex) = true then Res.ok (MaskOpt.none, false) else gpLoop cfg sch f cur fm rest2 fd.ty) ≠ .crash := by
+          intro fd h
+          rw [Res.bind_eq_crash] at h
+          rcases h with h | ⟨⟨fm, ex⟩, _, h⟩
+          · exact query_ne_crash h
+          · simp only at h
+            split at h
+            · simp at h
+            · exact ih _ _ _ _ hs20 (by omega) h
+        split
+        · split
+          · simp
+          · simp
+          · rename_i hn3
+            unfold siteInt32 at hn3
+            repeat' split at hn3
+            all_goals simp at hn3
+          · split
+            · simp
+            · exact via _
+        · split
+          · simp
+          · exact via _
+        · split
+          · simp
+          split
+          · simp
+          · exact ih _ _ _ _ hs20 (by omega)
+        · simp
+    · split
+      · split
+        · simp
+        · intro h
+          rw [Res.bind_eq_crash] at h
+          obtain ⟨h1, h2⟩ := gpIndex_total (cur := c) hp f rest c.all hs0 (by omega)
+          rcases h with h | ⟨r, hr, h⟩
+          · exact h1 h
+          · split at h
+            · simp at h
+            · rename_i nxt rest'
+              have := h2 nxt rest' hr
+              exact ih _ _ _ _ (this.trans hs0) (by have := this.length_le; omega) h
+      · simp
+    · split
+      · split
+        · simp
+        · intro h
+          rw [Res.bind_eq_crash] at h
+          obtain ⟨h1, h2⟩ := gpKeys_total (cur := c) hp f rest c.all hs0 (by omega)
+          rcases h with h | ⟨r, hr, h⟩
+          · exact h1 h
+          · split at h
+            · simp at h
+            · rename_i nxt rest'
+              have := h2 nxt rest' hr
+              exact ih _ _ _ _ (this.trans hs0) (by have := this.length_le; omega) h
+      · simp
+    · simp
+
+/-- GetPath returns when every token of the path consumes input -/
+theorem getPath_total {cfg : Sites} {sch : Schema} {m : MaskOpt} {desc : Ty} {path : Bytes} (hp : Progress cfg path) :
+    getPath cfg sch m desc path ≠ .crash :=
+  gpLoop_total hp _ _ _ _ _ (List.suffix_refl _) (by omega)
+
+
 end FieldMask
